@@ -34,7 +34,7 @@ FirstDiff(s, t) ==
 \* p.prop is the property id; p.a / p.b = [recs, clock, hist, stats, types]
 PairFails(p) ==
     LET pre == p.prop \o "."
-    IN (IF p.prop = "C20" THEN {}
+    IN (IF p.prop \in {"C20", "C19"} THEN {}
         ELSE Chk(pre \o "records-identical", p.a.recs = p.b.recs)
              \cup Chk(pre \o "final-clock-identical", p.a.clock = p.b.clock)
              \cup Chk(pre \o "tracker-history-identical", p.a.hist = p.b.hist))
@@ -53,6 +53,18 @@ PairFails(p) ==
                                  LET d == p.a.nums[i][j] - p.b.nums[i][j] IN d <= 2 /\ d >= -2)
              ELSE {})
 
+\* C19 on floating-point inputs: a = unlimited processor-sharing node, b = FIFO single-server node with the same
+\* arrivals and requirements; nums[1] = instants (micro-units) at which the node became empty, left = customers
+\* still inside after all work is done
+C19Fails(p) ==
+    IF p.prop # "C19" THEN {}
+    ELSE LET ea == p.a.nums[1]
+             eb == p.b.nums[1]
+         IN Chk("C19.nobody-is-left-behind", p.b.left = 0 => p.a.left = 0)
+            \cup Chk("C19.ps-empties-when-fifo-empties",
+                     Len(ea) = Len(eb) /\ \A i \in DOMAIN ea : i \in DOMAIN eb =>
+                         LET d == ea[i] - eb[i] IN d <= 2 /\ d >= -2)
+
 Detail(p) == [recs |-> FirstDiff(p.a.recs, p.b.recs), hist |-> FirstDiff(p.a.hist, p.b.hist)]
 
 VARIABLES k, out
@@ -60,7 +72,7 @@ vars == <<k, out>>
 
 Init == k = 1 /\ out = <<>>
 Next == /\ k <= NP
-        /\ out' = Append(out, [pid |-> Pairs[k].pid, prop |-> Pairs[k].prop, fails |-> PairFails(Pairs[k]),
+        /\ out' = Append(out, [pid |-> Pairs[k].pid, prop |-> Pairs[k].prop, fails |-> PairFails(Pairs[k]) \cup C19Fails(Pairs[k]),
                                detail |-> Detail(Pairs[k])])
         /\ k' = k + 1
         /\ (k = NP => ndJsonSerialize(IOEnv.OUT_FILE, out'))
